@@ -460,6 +460,10 @@ func (r *c17Run) apply(op c17Op) *verifkit.Failure {
 		}
 		var ecs []bgp.ExtendedCommunityInterface
 		rts := map[int]bool{}
+		if (op.A+len(op.RTs))%2 == 1 {
+			// other extended communities in front of the route targets (encapsulation, colour)
+			ecs = append(ecs, bgp.NewEncapExtended(bgp.TUNNEL_TYPE_VXLAN), bgp.NewColorExtended(7))
+		}
 		for _, x := range op.RTs {
 			ecs = append(ecs, c17RT(x))
 			rts[x] = true
